@@ -17,7 +17,7 @@ import (
 )
 
 type c13Params struct {
-	Mode string `json:"mode"` // unit | system
+	Mode string `json:"mode"` // unit | system | default (library default ping timeout)
 	N    int    `json:"n"`
 }
 
@@ -28,6 +28,9 @@ func c13Gen(tier string, seed int64) []fw.Case {
 	}
 	for i := 0; i < 16; i++ {
 		cs = append(cs, fw.Mk(fmt.Sprintf("system-%d", i), c13Params{Mode: "system", N: scale(tier, 3, 400)}))
+	}
+	for i := 0; i < 4; i++ {
+		cs = append(cs, fw.Mk(fmt.Sprintf("system-default-timeout-%d", i), c13Params{Mode: "default", N: scale(tier, 2, 12)}))
 	}
 	return cs
 }
@@ -170,7 +173,7 @@ func c13Unit(rng *rand.Rand) (sig, detail, shape string) {
 	return "", "", shape
 }
 
-func c13System(rng *rand.Rand) (sig, detail string, trace []string, shape string) {
+func c13System(rng *rand.Rand, forceDefault bool) (sig, detail string, trace []string, shape string) {
 	ping := []int{2, 3, 5}[rng.Intn(3)]
 	to := []int{6, 9, 14}[rng.Intn(3)]
 	sc := scen.Scenario{Client: "reconnect", Cfg: scen.BrokerCfg{Method: "A", Session: "keep"}, WaitBaseMs: 1, WaitMaxMs: 2, TimeoutMs: to, PingMs: ping, SlowReturn: []int{0, 2, 4}[rng.Intn(3)]}
@@ -179,7 +182,7 @@ func c13System(rng *rand.Rand) (sig, detail string, trace []string, shape string
 	if rng.Intn(3) != 0 {
 		silentAt = rng.Intn(n + 1)
 	}
-	if rng.Intn(8) == 0 {
+	if rng.Intn(8) == 0 || forceDefault {
 		// only the ping interval is configured: the library's default timeout (= interval) applies
 		ping, to = 150, 150
 		sc.PingMs, sc.TimeoutMs = ping, -1
@@ -359,14 +362,14 @@ func c13Run(c fw.Case, env *fw.Env) fw.Result {
 			sig, det, shape = c13Unit(sub)
 		} else {
 			seed := rng.Int63()
-			sig, det, trc, shape = c13System(rand.New(rand.NewSource(seed)))
+			sig, det, trc, shape = c13System(rand.New(rand.NewSource(seed)), p.Mode == "default")
 			if sig == "healthy-connection-closed" {
 				// A small ping timeout can expire on a loaded machine although the response was sent, which
 				// legitimately closes the connection. The verdict stands only if the same scenario does it
 				// three times out of three.
 				confirmed := 1
 				for k := 0; k < 2; k++ {
-					s2, _, _, _ := c13System(rand.New(rand.NewSource(seed)))
+					s2, _, _, _ := c13System(rand.New(rand.NewSource(seed)), p.Mode == "default")
 					if s2 == "healthy-connection-closed" {
 						confirmed++
 					}
